@@ -41,7 +41,19 @@ func RunProperty(c *Ctx, or Oracles, cases []*Case, rule string) error {
 				c.Stats.Fail(what, json.RawMessage(js))
 			}
 		}
-		model, observed, info := Check(cs, r, "repaired", or, fail)
+		var model, observed string
+		var info CaseInfo
+		if cs.Dyn != nil {
+			info = CheckDyn(cs, r, fail)
+			c.Stats.Count("elected_signers_" + cs.Dyn.Signers)
+			c.Stats.Count("oracle_only_elected_validators")
+			if cs.Dyn.Signers == "current" && info.BlockErr == 0 {
+				c.Stats.Count("elected_current_link_counted")
+			}
+			info.BlockErr = 0
+		} else {
+			model, observed, info = Check(cs, r, "repaired", or, fail)
+		}
 		c.Stats.Count("stream_" + cs.Stream)
 		c.Stats.Count(fmt.Sprintf("validators_%d", cs.NKeys))
 		if cs.Local == Outsider {
